@@ -233,3 +233,125 @@ def make_eval_param(state_kind):
 
 make_eval_param('array')
 make_eval_param('list')
+
+
+# ---------------------------------------------------------------------------------------------
+# set_sp: the symbol order every evaluator is compiled against
+
+class SpList(Model):
+    """the list  states + [t] + parameters  of set_sp: three segments of symbolic length; an entry is either the original ODEVariable /
+    time symbol or the sympy symbol it was replaced by (per-position replacement flags and values, updated by item assignment)"""
+    tags = frozenset({'list'})
+
+    def __init__(self, it, mv):
+        self.mv = mv
+        self.parts = 1            # 1: states; 2: states + [t]; 3: + parameters
+        E = __import__('pyvc.lib_sympy', fromlist=['Expr']).Expr
+        self.E = E
+        self.rep = [z3.K(z3.IntSort(), z3.BoolVal(False)) for _ in range(3)]
+        self.val = [z3.K(z3.IntSort(), z3.Const('no_expr', E)) for _ in range(3)]
+
+    def total(self):
+        mv = self.mv
+        return [mv.nS, mv.nS + 1, mv.nS + 1 + mv.nP][self.parts - 1]
+
+    def py_len(self, it):
+        return self.total()
+
+    def locate(self, it, k):
+        """segment and offset of position k (path split)"""
+        mv = self.mv
+        if it.ctx.branch(k < mv.nS, 'sp-segment'):
+            return 0, k
+        if it.ctx.branch(k == mv.nS, 'sp-segment'):
+            return 1, z3.IntVal(0)
+        return 2, z3.simplify(k - mv.nS - 1)
+
+    def element(self, it, k):
+        from pyvc.lib_sympy import SExpr
+        seg, off = self.locate(it, k)
+        if it.ctx.branch(z3.Select(self.rep[seg], off), 'sp-replaced'):
+            return SExpr(z3.Select(self.val[seg], off), ('Symbol',))
+        if seg == 0:
+            return self.mv.states.elem(off)
+        if seg == 1:
+            return self.mv.obj.fields['_t']
+        return self.mv.params.elem(off)
+
+    def py_iter(self, it):
+        from pyvc.values import SymIter
+        return SymIter(self.total(), lambda k: self.element(it, k))
+
+    def py_getitem(self, it, idx):
+        return self.element(it, to_num(idx))
+
+    def py_setitem(self, it, idx, v):
+        from pyvc.lib_sympy import SExpr
+        if not isinstance(v, SExpr):
+            raise Unsupported("storing %r in the symbol list" % (v,))
+        seg, off = self.locate(it, to_num(idx))
+        self.val[seg] = z3.Store(self.val[seg], off, v.term)
+        self.rep[seg] = z3.Store(self.rep[seg], off, z3.BoolVal(True))
+
+    def py_binop(self, it, op, other, refl):
+        import ast as _ast
+        if not isinstance(op, _ast.Add) or refl:
+            return NotImplemented
+        new = SpList(it, self.mv)
+        new.rep, new.val = list(self.rep), list(self.val)
+        if self.parts == 1 and isinstance(other, list) and len(other) == 1 and other[0] is self.mv.obj.fields['_t']:
+            new.parts = 2
+            return new
+        if self.parts == 2 and other is self.mv.params:
+            new.parts = 3
+            return new
+        raise Unsupported("unexpected concatenation in set_sp")
+
+    def havoc_inplace(self, it, hint):
+        self.rep = [z3.Array(it.ctx._name(hint + '_rep%d' % s_), z3.IntSort(), z3.BoolSort()) for s_ in range(3)]
+        self.val = [z3.Array(it.ctx._name(hint + '_val%d' % s_), z3.IntSort(), self.E) for s_ in range(3)]
+
+
+@contract('C01/set_sp', ['C01', 'C09', 'C08'], 'pygom.model.base_ode_model:BaseOdeModel.set_sp', max_paths=600)
+def set_sp(vc):
+    """set_sp: _sp = [symbol of state 0, ..., symbol of state nS-1, t, symbol of parameter 0, ..., symbol of parameter nP-1] -- the positional
+    order of the arguments of every compiled evaluator (matched by _getEvalParam)"""
+    from contracts.modelview import ModelView, sid, pid, declared, pdeclared
+    from pyvc.lib_sympy import StateSym, ParamSym, SExpr
+    mv = ModelView(vc, with_ode_terms=False)
+    nS, nP = mv.nS, mv.nP
+    i_, j_ = z3.Int('sp_i'), z3.Int('sp_j')
+    vc.require('state names are not parameter names', z3.And(z3.ForAll([i_], z3.Implies(z3.And(i_ >= 0, i_ < nS), z3.Not(pdeclared(sid(i_))))),
+                                                             z3.ForAll([j_], z3.Implies(z3.And(j_ >= 0, j_ < nP), z3.Not(declared(pid(j_)))))))
+    # the state list supports  states + [t]
+    first = SpList(vc.it, mv)
+    mv.states.py_binop = lambda it, op, other, refl: first.py_binop(it, op, other, refl)
+    F = 'pygom.model.base_ode_model:BaseOdeModel.set_sp'
+    k_ = z3.Int('sp_k')
+
+    def inv(view, i):
+        sp = mv.obj.fields['_sp']
+        return [('entries before i are the model symbols of their position; later entries are untouched; t is never replaced',
+                 z3.And(z3.ForAll([k_], z3.Implies(z3.And(k_ >= 0, k_ < nS), z3.Select(sp.rep[0], k_) == (k_ < i))),
+                        z3.ForAll([k_], z3.Implies(z3.And(k_ >= 0, k_ < nS, k_ < i), z3.Select(sp.val[0], k_) == StateSym(sid(k_)))),
+                        z3.Not(z3.Select(sp.rep[1], 0)),
+                        z3.ForAll([k_], z3.Implies(z3.And(k_ >= 0, k_ < nP), z3.Select(sp.rep[2], k_) == (k_ + nS + 1 < i))),
+                        z3.ForAll([k_], z3.Implies(z3.And(k_ >= 0, k_ < nP, k_ + nS + 1 < i), z3.Select(sp.val[2], k_) == ParamSym(pid(k_))))))]
+
+    def inplace(it, view):
+        mv.obj.fields['_sp'].havoc_inplace(it, 'sp')
+    vc.loop(F, 0, inv, inplace=(inplace,))
+    out = vc.call(vc.func(F), mv.obj)
+    vc.ensure('returns normally', out.returned)
+    if not out.returned:
+        return
+    sp = mv.obj.fields.get('_sp')
+    ok = isinstance(sp, SpList) and sp.parts == 3
+    vc.ensure('_sp is states + [t] + parameters', ok)
+    if ok:
+        vc.ensure('position k < nS holds the sympy symbol of state k',
+                  z3.ForAll([k_], z3.Implies(z3.And(k_ >= 0, k_ < nS), z3.And(z3.Select(sp.rep[0], k_), z3.Select(sp.val[0], k_) == StateSym(sid(k_))))))
+        vc.ensure('position nS holds the time symbol', z3.Not(z3.Select(sp.rep[1], 0)))
+        vc.ensure('position nS + 1 + j holds the sympy symbol of parameter j',
+                  z3.ForAll([k_], z3.Implies(z3.And(k_ >= 0, k_ < nP), z3.And(z3.Select(sp.rep[2], k_), z3.Select(sp.val[2], k_) == ParamSym(pid(k_))))))
+    vc.canary('canary: reachable', z3.BoolVal(False))
